@@ -21,6 +21,9 @@ CLOSED_EXCEPT_CUR = ("forall_t(lambda a: forall_t(lambda b: imp(all_of(marked(a)
 CUR_VISITED = ("forall_t(lambda b: imp(all_of(processed(b), is_template(b), uses(key(page), b)), marked(b)))")
 CUR_MARKED = "all_of(marked(page), is_template(page), in_S(page), neg(member(expand_stack, page)))"
 
+# termination measure of the worklist loop: 2 * |unmarked templates| + |worklist|
+MEASURE = "2 * unmarked() + stack_len(expand_stack)"
+
 # S: an arbitrary set containing the flagged templates and closed under "includes a member" (minimality)
 S_AXIOMS = ["forall_t(lambda a: imp(all_of(flag(a), is_template(a)), in_S(a)))",
             "forall_t(lambda a: imp(was_marked(a), in_S(a)))",
@@ -58,12 +61,14 @@ def contracts():
                     "all_of(same(b, page), processed_n(n), uses(n, b)))))"]},
             "while len(expand_stack) > 0": {
                 "havoc_ghost": ["M", "memo_valid"],
+                # termination: every iteration pops one entry and pushes one entry per page it newly marks
+                "variant": MEASURE,
                 "invariant": ["memo_coherent()", REL_DONE, FLAGGED_MARKED, STACK_MARKED, MARKED_TEMPL, MARKED_IN_S, OLD_KEPT,
                               CLOSED_OFF_STACK]},
             "for template_title in included_map[title_no_ns_prefix]": {
                 "foreach": True, "havoc_ghost": ["M", "memo_valid"],
                 "invariant": ["memo_coherent()", REL_DONE, FLAGGED_MARKED, STACK_MARKED, MARKED_TEMPL, MARKED_IN_S, OLD_KEPT,
-                              CLOSED_EXCEPT_CUR, CUR_VISITED, CUR_MARKED]},
+                              CLOSED_EXCEPT_CUR, CUR_VISITED, CUR_MARKED, MEASURE + " < variant_at_head"]},
         },
         asserts={"query_str = '": LEAST_FIXPOINT},
         raises=[], result="none",
